@@ -365,6 +365,7 @@ def h2(ctx, R):
         if isinstance(n, ast.Assign) and any(isinstance(t, ast.Attribute) and t.attr in written for t in n.targets):
             v = n.value
             ok = (isinstance(v, ast.Constant) and v.value in (None, b"", "", 0, False)) or (
+                isinstance(v, ast.Dict) and all(isinstance(x, ast.Constant) for x in list(v.keys) + list(v.values))) or (
                 isinstance(v, (ast.List, ast.Dict, ast.Tuple)) and not getattr(v, "elts", getattr(v, "keys", []))) or (
                 isinstance(v, ast.Call) and isinstance(v.func, ast.Name) and v.func.id in ("list", "dict", "set", "tuple", "bytes", "str", "bytearray")
                 and not v.args and not v.keywords)
